@@ -298,6 +298,8 @@ _add("C05", "Session 5 (iterator): HpxToUniqIter is transliterated (Model/UniqIt
             "nuniq_iter_maximal (nothing emitted below the top level has its parent inside the MOC) — pass_sound / pass_complete, noBlk_after_pass, block_nest, removed_block, transfer; and emitted_iff_cell: an aligned cell is emitted by the iterator iff it is a cell of the cell view (maximal_unique: one family of maximal aligned cells per covered set). Tie: values of the real iterator = values of this model (r_nuniq_it) = NUNIQ numbers of the normal-form cells (r_nuniq).")
 _add("C19", "Session 5 (dates): the tool's ISO date conversion is modelled (Model/Calendar.lean: calendar2f / gregorian2jd as written, hms2usec, check_usec) and proved to count days: iso_day_count (every Gregorian date to the next one is +1 Julian day — ends of months, 28 / 29 February through the 400-year cycle, century years — anchored on 2000-01-01 = JD 2451545), "
             "iso_next_day_usec (+86 400 000 000 us); tie: random civil dates 1583..2400 with fractions of a second through `moc from timestamp --time-type isorfc|isosimple` = the model (cli_from_iso).")
+_add("C17", "Session 5: hole filling is modelled (Model/FillHoles.lean: components of the complement over the edge-or-vertex adjacency, stably sorted by decreasing size, all but the 1 + n largest added) with fill_holes_spec, fill_holes_largest_kept, fill_holes_superset, and tied exactly to the real fill_holes(None | Some(1)) (op sp_fill; equal-size components across the cut skipped); "
+            "the space operations are also driven on u32 and u16 MOCs (seed C17e).")
 _add("C20", "After the bug hunt the four descent theorems carry the STRICT inequality of the property (a threshold exactly on a sub-cell boundary cuts nothing and is met exactly; the code was off by a whole piece, repaired b3d1506; the model has the guards "
             "of the repaired code and the reverse lower descent recurses into itself, d3d6aa3), the harness judges the implementation with the exact sum of the pieces really cut, thresholds on every quarter / finest-piece boundary in both density orders are generated, "
             "and the sky-map reader is driven with skipped, UNSEEN and NaN pixels against the model (repaired 655082e). The whole-selection theorem selection_mass_bracket carries the strict inequality too (third conjunct; equality when no boundary cell is descended into).")
